@@ -146,12 +146,54 @@ pub struct Analysis {
     pub ahead: i64,
     pub ncmd: usize,
     pub nhd: usize,
+    /// features of the trees produced that identify known defects
+    pub marks: Vec<&'static str>,
+}
+
+/// Scans a tree (JSON projection) for features named in known findings.
+pub fn marks_of(v: &Value, out: &mut Vec<&'static str>) {
+    fn add(out: &mut Vec<&'static str>, m: &'static str) {
+        if !out.contains(&m) {
+            out.push(m);
+        }
+    }
+    match v {
+        Value::Array(a) => {
+            // a word (array of units) whose last unit is a literal ending in a backslash
+            if let Some(Value::Object(last)) = a.last() {
+                if last.get("t").and_then(Value::as_str) == Some("lit")
+                    && last.get("s").and_then(Value::as_str).is_some_and(|s| s.ends_with('\\'))
+                {
+                    add(out, "lit-backslash-end");
+                }
+            }
+            for x in a {
+                marks_of(x, out);
+            }
+        }
+        Value::Object(m) => {
+            if m.get("t").and_then(Value::as_str) == Some("ctl") && m.get("b").and_then(Value::as_u64) == Some(28) {
+                add(out, "ctl28");
+            }
+            if m.get("t").and_then(Value::as_str) == Some("sub") {
+                // subshell whose body starts with a subshell: printed as `((`
+                let first = &m["body"][0]["ao"]["first"];
+                if first["neg"] == json!(false) && first["cmds"][0]["c"]["t"] == json!("sub") {
+                    add(out, "sub-in-sub-front");
+                }
+            }
+            for x in m.values() {
+                marks_of(x, out);
+            }
+        }
+        _ => {}
+    }
 }
 
 pub fn analyse(text: &str, portable: bool) -> Analysis {
     let mut a = Analysis {
         out: "ok", detail: String::new(), tree: json!([]), printed: vec![], rt: "na",
-        rt_detail: String::new(), pulled: 0, needed: 0, ahead: 0, ncmd: 0, nhd: 0,
+        rt_detail: String::new(), pulled: 0, needed: 0, ahead: 0, ncmd: 0, nhd: 0, marks: vec![],
     };
     let p = match catch(|| parse_lines(text, portable)) {
         Ok(p) => p,
@@ -174,6 +216,7 @@ pub fn analyse(text: &str, portable: bool) -> Analysis {
         a.tree = lists_tree(&p.lists, Opt { bodies: true });
     }
     let ne = Opt { bodies: false };
+    marks_of(&lists_tree(&p.lists, ne), &mut a.marks);
     a.rt = if p.lists.is_empty() { "na" } else { "eq" };
     for l in &p.lists {
         let want = tree::list(l, ne);
